@@ -132,8 +132,8 @@ static void flush(void)
 }
 
 /* ------------------------------------------------------------------ fragment pools */
-static char *POOL1[96], *POOL2[96], *POOL3[64];
-static const char *LBL1[96], *LBL2[96], *LBL3[64];
+static char *POOL1[128], *POOL2[128], *POOL3[96];
+static const char *LBL1[128], *LBL2[128], *LBL3[96];
 static int N1, N2, N3;
 
 static char *b64n(const void *p, size_t n) { return tok_b64(p, n); }
@@ -221,6 +221,14 @@ static void pools(void)
 	add1("deeply nested", nested(3000));
 	add1("truncated JSON", b64s("{\"alg\":\"none\""));
 	add1("invalid UTF-8", B64L("{\"alg\":\"none\",\"x\":\"\xff\"}"));
+	{
+		/* long segments that do not decode: foreign byte, all padding, 1 mod 4 */
+		char *s;
+		s = malloc(700); memset(s, 'e', 600); s[300] = '!'; s[600] = 0; add1("600 chars with a foreign byte", s);
+		s = malloc(700); memset(s, '=', 512); s[512] = 0; add1("512 '=' characters", s);
+		s = malloc(700); memset(s, 'e', 601); s[601] = 0; add1("601 chars (1 mod 4)", s);
+		s = malloc(5000); memset(s, 'e', 4100); s[4099] = (char)0x80; s[4100] = 0; add1("4100 chars ending in a high-bit byte", s);
+	}
 
 	add2("{}", b64s("{}"));
 	add2("{\"a\":1}", b64s("{\"a\":1}"));
@@ -242,6 +250,12 @@ static void pools(void)
 	add2("deeply nested", nested(3000));
 	add2("invalid UTF-8", B64L("{\"x\":\"\xc3\x28\"}"));
 	add2("escaped NUL", b64s("{\"x\":\"a\\u0000b\"}"));
+	{
+		char *s;
+		s = malloc(700); memset(s, 'e', 600); s[10] = '!'; s[600] = 0; add2("600 chars with a foreign byte", s);
+		s = malloc(700); memset(s, '=', 600); s[600] = 0; add2("600 '=' characters", s);
+		s = malloc(5000); memset(s, 'A', 4097); s[4097] = 0; add2("4097 chars (1 mod 4)", s);
+	}
 
 	add3("empty", strdup(""));
 	add3("A", strdup("A"));
@@ -262,6 +276,9 @@ static void pools(void)
 		s = malloc(70000); memset(s, 'Q', 65536); s[65536] = 0; add3("64 KiB signature", s);
 		s = malloc(400); memset(s, 'Q', 86); s[40] = (char)0x80; s[86] = 0; add3("86 chars with a high-bit byte", s);
 		s = malloc(400); memset(s, 'Q', 86); s[86] = '='; s[87] = '='; s[88] = 0; add3("86 chars plus '=='", s);
+		s = malloc(700); memset(s, 'Q', 600); s[599] = '!'; s[600] = 0; add3("600 chars with a foreign byte", s);
+		s = malloc(700); memset(s, '=', 600); s[600] = 0; add3("600 '=' characters", s);
+		s = malloc(5000); memset(s, 'Q', 4101); s[2000] = ' '; s[4101] = 0; add3("4101 chars with a space", s);
 	}
 	LBL3[N3] = "correct HS256 MAC of this header.payload";
 	POOL3[N3++] = NULL;   /* computed per product cell */
@@ -401,6 +418,15 @@ static void enumerate(void)
 			memset(seg, 'A', len);
 			seg[len] = 0;
 			sprintf(tok, "%s.e30.", seg); probe(CF_NOKEY, tok); probe(CF_HS, tok);
+			if (len > 2) {
+				/* the same lengths with a byte that makes the segment undecodable, in each position */
+				seg[len / 2] = '!';
+				sprintf(tok, "%s.e30.", seg); probe(CF_NOKEY, tok);
+				sprintf(tok, "eyJhbGciOiJub25lIn0.%s.", seg); probe(CF_NOKEY, tok);
+				sprintf(tok, "eyJhbGciOiJFUzI1NiJ9.e30.%s", seg); probe(CF_ES, tok); probe(CF_HS, tok);
+				sprintf(tok, "eyJhbGciOiJSUzI1NiJ9.e30.%s", seg); probe(CF_RS, tok);
+				seg[len / 2] = 'A';
+			}
 			sprintf(tok, "eyJhbGciOiJub25lIn0.%s.", seg); probe(CF_NOKEY, tok);
 			sprintf(tok, "eyJhbGciOiJIUzI1NiJ9.e30.%s", seg); probe(CF_HS, tok); probe(CF_ES, tok); probe(CF_RS, tok); probe(CF_ED, tok);
 			sprintf(tok, "eyJhbGciOiJFUzI1NiJ9.e30.%s", seg); probe(CF_ES, tok);
